@@ -35,3 +35,16 @@ pub fn map_chars_to_string(r: Result<Vec<char>, Error>) -> (s: Result<String, Er
         r is Err ==> s is Err && s->Err_0 == r->Err_0,
 { unimplemented!() }
 
+
+// `ReMatcher::replace` as seen by `Regex::replace_all`: its result is the function `replace_result` of the program, the
+// input and the replacement (unit `replace` verifies the real function against the C15 specification; here only the
+// wiring of the wrapper is at stake)
+pub uninterp spec fn replace_result(program: &ReProgram, search: Seq<char>, replacement: Seq<char>) -> Result<Seq<char>, Error>;
+impl<'a> ReMatcher<'a> {
+    #[verifier::external_body]
+    pub fn replace(&mut self, replacement: &[char]) -> (r: Result<Vec<char>, Error>)
+        ensures
+            replace_result(old(self).program, old(self).search@, replacement@) is Ok ==> r is Ok && r->Ok_0@ == replace_result(old(self).program, old(self).search@, replacement@)->Ok_0,
+            replace_result(old(self).program, old(self).search@, replacement@) is Err ==> r is Err && r->Err_0 == replace_result(old(self).program, old(self).search@, replacement@)->Err_0,
+    { unimplemented!() }
+}
